@@ -74,8 +74,10 @@ def shard(binpath, seed, sh, ndocs, rsa_share):
             if wname not in out:
                 res.violate("writer-fails:" + wname, f"{wname} writer failed on a signed block", None, so, "text")
                 continue
-            cases.append({"op": "block", "text": out[wname], "threshold": len(signers), "auth": auth,
-                          "meta": dict(base, writer=wname, expect="ok")})
+            # the written text is read back from memory, from a stream or through a parsed JSON tree
+            route = rng.choice(["slice", "slice", "reader", "json_reader", "value", "json_deserialize"])
+            cases.append({"op": "block", "text": out[wname], "threshold": len(signers), "auth": auth, "route": route,
+                          "meta": dict(base, writer=wname, expect="ok", route=route)})
         wire = out["wire"]
         # negative: another key of the same type
         k0 = signers[0]
@@ -129,6 +131,7 @@ def shard(binpath, seed, sh, ndocs, rsa_share):
                "positive" if m["expect"] == "ok" else "neg:" + m["neg"], f"nsigners:{len(m['signers'])}"]
         if m["expect"] == "ok" and o.get("verify") == "ok":
             cls.append("positive_verified")
+            cls.append("read_back_via:" + m.get("route", "slice"))
         res.note([c["text"], m["expect"]], True, cls=cls)
     if sh == 0 and cases:
         res.sample({"meta": cases[0]["meta"], "text": cases[0]["text"][:600], "verify": obs[0].get("verify")})
@@ -147,7 +150,7 @@ def main(ctx):
              "{constructor, builder, raw builder over compact / pretty bytes, public-API-built values} x {serde compact, serde pretty, Json writer, JsonPretty writer}; "
              "negatives: other key, bit flips, other PSS scheme; every case is non-trivial; distinct by SHA-256 of wire text",
         assumptions=["ring's primitives are correct", "serde_json is the wire reader"],
-        required=["positive_verified", "via:new", "via:builder", "via:raw_builder", "via:raw_builder_pretty", "via:api", "via:api_builder", "writer:pretty", "writer:cjson",
+        required=["positive_verified", "read_back_via:reader", "read_back_via:value", "read_back_via:json_reader", "read_back_via:json_deserialize", "via:new", "via:builder", "via:raw_builder", "via:raw_builder_pretty", "via:api", "via:api_builder", "writer:pretty", "writer:cjson",
                   "writer:cjson_pretty", "keys:ed", "keys:ec", "keys:rsa", "doc:link", "doc:layout",
                   "neg:one signature bit was flipped", "neg:verified under a different key",
                   "neg:the same RSA key material was declared with the other PSS scheme",
